@@ -102,6 +102,15 @@ func freeAddr() (string, error) {
 	return "", fmt.Errorf("no free port for --bind")
 }
 
+func canListen(addr string) bool {
+	l, err := net.Listen("tcp", addr)
+	if err != nil {
+		return false
+	}
+	l.Close()
+	return true
+}
+
 func canDial(addr string) bool {
 	c, err := net.DialTimeout("tcp", addr, 300*time.Millisecond)
 	if err != nil {
@@ -277,8 +286,12 @@ func probeCL(addr string, b *backend, id int, version primitive.ProtocolVersion)
 		q := fmt.Sprintf("INSERT INTO ks.t (k, v) VALUES ('%s', %d)", tok, code)
 		frm := frame.NewFrame(version, int16(code+1), &message.Query{Query: q,
 			Options: &message.QueryOptions{Consistency: primitive.ConsistencyLevel(code)}})
-		if _, err := c.Roundtrip(frm, tok, "write", 5*time.Second); err != nil {
+		r, err := c.Roundtrip(frm, tok, "write", 5*time.Second)
+		if err != nil {
 			return out, "cl probe: " + err.Error()
+		}
+		if r.Kind != "ok" {
+			return out, fmt.Sprintf("cl probe: write with consistency %d answered %s %s", code, r.Kind, r.ErrMsg)
 		}
 	}
 	for _, a := range b.c.Log() {
@@ -305,7 +318,8 @@ func runRow(row Row, slot int, bin, scratch string) Result {
 		res.Attempts = attempt
 		// a bind race with another socket of this machine is the only harness-made reason for a
 		// start-up failure: retry a non-serving row only when the message says so
-		if res.Infra == "" && !(res.Returned && !res.Served && strings.Contains(res.Stderr, "address already in use")) {
+		if res.Infra == "" && !(res.Returned && !res.Served &&
+			(strings.Contains(res.Stderr, "address already in use") || (!res.ListenerLeft && !canListen(res.Bind)))) {
 			break
 		}
 	}
